@@ -384,6 +384,8 @@ def run_spellings(tier, rnd, st, res):
 BAD_COLOURS = ['#12', '#12345g', '', 'nocolor', (1, 2), (256, 0, 0), (0, 0, 0, 2.0), '#', '#1', '#12345', '#1234567', '#123456789',
                'notacolour', (1, 2, 3, 4, 5), (-1, 0, 0), (0, 0, 256), (0, 0, 0, -1), (0, 0, 0, 256), (0, 0, 0, 1.5), (0, 0, 0, -0.5),
                (), '#ggg', 'rgb(1,2,3)', ' red', '#12 34 56', '#1 2', '#12  34', '# 123', '#12 3', '12 34 56', '#1234 5678']
+# decimal digits of other scripts are not hexadecimal digits (str.isalnum / int(x, 16) accept them): wave 10, C14f-2
+UNICODE_DIGIT_COLOURS = ['#\u0663\u0663\u0663', '#\uff11\uff12\uff13\uff14\uff15\uff16', '#ff\u0660\u0660ff', '\u0663\u0663\u0663', '#\u0967\u0968\u0969\u096a']
 GOOD_COLOURS = [None, '#123', '#a1b2c3', 'Red', 'darkblue', (1, 2, 3), (0, 0, 0, 255), (9, 8, 7, 0.5), '#00000080', '#1238']
 COLOUR_KEYS = {'svg': COLOURS, 'png': COLOURS, 'ppm': COLOURS, 'eps': ['dark', 'light'], 'pdf': ['dark', 'light'], 'pam': ['dark', 'light'],
                'xpm': ['dark', 'light'], 'svgz': ['dark', 'light', 'quiet_zone']}
@@ -431,7 +433,7 @@ def run_serializers(tier, rnd, st, res):
         # the version 7 symbol has every module type
         qr = qrs[2]
         for key in COLOUR_KEYS.get(kind, []):
-            bad = BAD_COLOURS if tier != 'quick' and True else BAD_COLOURS[:7] + rnd.sample(BAD_COLOURS[7:], 6)
+            bad = (BAD_COLOURS if tier != 'quick' and True else BAD_COLOURS[:7] + rnd.sample(BAD_COLOURS[7:], 6)) + UNICODE_DIGIT_COLOURS
             for val in bad + (GOOD_COLOURS if key in ('dark', 'light') or tier != 'quick' else [None] + rnd.sample(GOOD_COLOURS[1:], 2)):
                 attempt(qr, kind, key, val)
         # call histories: a valid colour first, then a malformed one that compares equal as a Python value
